@@ -3,7 +3,8 @@
 import json, os
 ROOT = os.path.dirname(os.path.dirname(os.path.abspath(__file__)))
 props = [json.loads(l) for l in open(os.path.join(ROOT, "properties.jsonl"))]
-TB = ("Trusted base: the pyvc encoding of the stated Python subset (DESIGN 2.3; validated every run by the CPython cross-check where one exists), z3 5.1; "
+TB = ("Trusted base: the pyvc encoding of the stated Python subset (DESIGN 2.3; checked on every run by the engine conformance self-test against CPython - about 1100 concrete and "
+      "symbolic-argument cases, tools/selftest_engine.py - and by the path-by-path CPython cross-check where one exists), z3 5.1; callee contracts used at call sites are discharged against the callee bodies in the same check; "
       "assumptions listed in the evidence file (backend contract B, stdlib S, reals for floats A, user program U, atomicity G).")
 CLAIMED = {
  "C01": ("handlers of all six operation kinds executed symbolically over an arbitrary record: terminal records short-circuit without user function or update and yield exactly the recorded result/error; summary contexts re-traverse once without records",
